@@ -1,8 +1,218 @@
+import DeapModel.Core.GpTree
 import Driver.Proto
-/-! Protocol handler for C11 (stub until the model is built). -/
+/-!
+Protocol handler for C11 (GP trees).
+
+node    `name:ret:a.b.c:kind:text`   (kind p|t|e; args / text may be empty)
+nodes   comma-separated nodes, `-` = empty list
+pset    six tokens: `<sub> <prims> <terms> <ret> <terms_count> <prims_count>`
+        sub   = `a.b,a.b,…` all pairs with issubclass(a, b)
+        pools = `τ=nodes;τ=nodes;…` (`τ=` empty list), `-` = empty dict
+tape    comma-separated draws `r<bits>` | `i<a>.<b>.<x>` | `g<a>.<b>.<x>` | `c<n>.<i>` | `k<n>.<τ>`
+-/
 namespace DriverC11
+open Proto GpTree
+
+def parseKind : String → Option Kind
+  | "p" => some .prim
+  | "t" => some .term
+  | "e" => some .eph
+  | _ => none
+
+def showKind : Kind → String
+  | .prim => "p"
+  | .term => "t"
+  | .eph => "e"
+
+def parseDots {β : Type} (p : String → Option β) (s : String) : Option (List β) :=
+  if s = "" then some [] else (s.splitOn ".").mapM p
+
+def parseNode (s : String) : Option Prim :=
+  match s.splitOn ":" with
+  | [name, ret, args, kind, text] => do
+    let r ← parseNat ret
+    let a ← parseDots parseNat args
+    let k ← parseKind kind
+    if name = "" then none else some ⟨name, r, a, k, text⟩
+  | _ => none
+
+def showNode (p : Prim) : String :=
+  p.name ++ ":" ++ toString p.ret ++ ":" ++ ".".intercalate (p.args.map toString) ++ ":" ++ showKind p.kind ++ ":" ++ p.text
+
+def parseNodes (s : String) : Option (List Prim) := parseList parseNode s
+def showNodes (l : List Prim) : String := showList showNode l
+
+def parsePool (s : String) : Option (List (Nat × List Prim)) :=
+  if s = "-" then some [] else
+  (s.splitOn ";").mapM (fun e =>
+    match e.splitOn "=" with
+    | [t, ns] => do
+      let τ ← parseNat t
+      let l ← if ns = "" then some [] else parseNodes ns
+      some (τ, l)
+    | _ => none)
+
+def parseSub (s : String) : Option (List (Nat × Nat)) :=
+  parseList (fun e => match e.splitOn "." with
+    | [a, b] => do let x ← parseNat a; let y ← parseNat b; some (x, y)
+    | _ => none) s
+
+def mkSub (pairs : List (Nat × Nat)) : Nat → Nat → Bool := fun a b => pairs.contains (a, b)
+
+def parsePset (sub prims terms ret tc pc : String) : Option Pset := do
+  let sp ← parseSub sub
+  let pr ← parsePool prims
+  let te ← parsePool terms
+  let r ← parseNat ret
+  let t ← parseNat tc
+  let p ← parseNat pc
+  some ⟨mkSub sp, dictGet pr, dictGet te, r, t, p⟩
+
+def parseDraw (s : String) : Option Draw :=
+  let body := (s.drop 1).toString
+  match (s.take 1).toString with
+  | "r" => body.toNat?.map (fun n => Draw.rnd (Float.ofBits (UInt64.ofNat n)))
+  | "i" => match body.splitOn "." with
+    | [a, b, x] => do let a ← parseInt a; let b ← parseInt b; let x ← parseInt x; some (.randint a b x)
+    | _ => none
+  | "g" => match body.splitOn "." with
+    | [a, b, x] => do let a ← parseNat a; let b ← parseNat b; let x ← parseNat x; some (.randrange a b x)
+    | _ => none
+  | "c" => match body.splitOn "." with
+    | [n, i] => do let n ← parseNat n; let i ← parseNat i; some (.choice n i)
+    | _ => none
+  | "k" => match body.splitOn "." with
+    | [n, t] => do let n ← parseNat n; let t ← parseNat t; some (.pick n t)
+    | _ => none
+  | _ => none
+
+def parseTape (s : String) : Option Tape := parseList parseDraw s
+
+def parseMode : String → Option (Option GenMode)
+  | "full" => some (some .full)
+  | "grow" => some (some .grow)
+  | "half" => some none
+  | _ => none
+
+def runGen (m : Option GenMode) (ps : Pset) (mn mx τ : Nat) (tp : Tape) : Option (List Prim × Tape) :=
+  match m with
+  | some .full => genFull ps mn mx τ tp
+  | some .grow => genGrow ps mn mx τ tp
+  | none => genHalfAndHalf ps mn mx τ tp
+
+def show1 : Option (List Prim × Tape) → String
+  | some (l, tp) => showNodes l ++ " " ++ toString tp.length
+  | none => "none"
+
+def show2 : Option (List Prim × List Prim × Tape) → String
+  | some (a, b, tp) => showNodes a ++ " " ++ showNodes b ++ " " ++ toString tp.length
+  | none => "none"
+
+def showMany : Option (List (List Prim) × Tape) → String
+  | some (ls, tp) => " ".intercalate (ls.map showNodes) ++ " " ++ toString tp.length
+  | none => "none"
+
+def lift1 (r : Option (List Prim × Tape)) : Option (List (List Prim) × Tape) := r.map (fun (l, tp) => ([l], tp))
+def lift2 (r : Option (List Prim × List Prim × Tape)) : Option (List (List Prim) × Tape) :=
+  r.map (fun (a, b, tp) => ([a, b], tp))
+
+/-- an operator line (without the tape), as a function of the argument trees and the tape -/
+def parseOp : List String → Option (List (List Prim) × (List (List Prim) → Tape → Option (List (List Prim) × Tape)))
+  | ["cx", a, b] => do
+    let a ← parseNodes a; let b ← parseNodes b
+    some ([a, b], fun args tp => match args with | [x, y] => lift2 (cxOnePoint x y tp) | _ => none)
+  | ["cxlb", a, b, pb] => do
+    let a ← parseNodes a; let b ← parseNodes b; let pb ← parseFloat pb
+    some ([a, b], fun args tp => match args with | [x, y] => lift2 (cxOnePointLeafBiased x y pb tp) | _ => none)
+  | ["mutu", s, p, t, r, tc, pc, ind, mode, mn, mx] => do
+    let ps ← parsePset s p t r tc pc
+    let ind ← parseNodes ind; let m ← parseMode mode; let mn ← parseNat mn; let mx ← parseNat mx
+    some ([ind], fun args tp => match args with
+      | [x] => lift1 (mutUniform x (fun τ tp => runGen m ps mn mx τ tp) tp) | _ => none)
+  | ["mutn", s, p, t, r, tc, pc, ind] => do
+    let ps ← parsePset s p t r tc pc
+    let ind ← parseNodes ind
+    some ([ind], fun args tp => match args with | [x] => lift1 (mutNodeReplacement x ps tp) | _ => none)
+  | ["mute", ind, mode] => do
+    let ind ← parseNodes ind
+    let one ← if mode = "one" then some true else if mode = "all" then some false else none
+    some ([ind], fun args tp => match args with | [x] => lift1 (mutEphemeral x one tp) | _ => none)
+  | ["muti", s, p, t, r, tc, pc, ind] => do
+    let ps ← parsePset s p t r tc pc
+    let ind ← parseNodes ind
+    some ([ind], fun args tp => match args with | [x] => lift1 (mutInsert x ps tp) | _ => none)
+  | ["muts", ind] => do
+    let ind ← parseNodes ind
+    some ([ind], fun args tp => match args with | [x] => lift1 (mutShrink x tp) | _ => none)
+  | _ => none
+
+def parseKey : String → Option (List Prim → Option Nat)
+  | "len" => some (fun l => some l.length)
+  | "height" => some heightL
+  | _ => none
+
+def dropLast (l : List String) : Option (List String × String) :=
+  match l.reverse with
+  | [] => none
+  | x :: r => some (r.reverse, x)
 
 def handle : List String → String
-  | _ => "bad-op"
+  | ["gen", s, p, t, r, tc, pc, mode, mn, mx, ty, tape] =>
+    match (do let ps ← parsePset s p t r tc pc; let m ← parseMode mode; let mn ← parseNat mn
+              let mx ← parseNat mx; let τ ← parseNat ty; let tp ← parseTape tape; pure (ps, m, mn, mx, τ, tp)) with
+    | some (ps, m, mn, mx, τ, tp) => show1 (runGen m ps mn mx τ tp)
+    | none => "bad-op"
+  | ["search", ind, i] =>
+    match (do let l ← parseNodes ind; let i ← parseNat i; pure (l, i)) with
+    | some (l, i) => match searchSubtree l i with
+      | some (b, e) => toString b ++ " " ++ toString e
+      | none => "none"
+    | none => "bad-op"
+  | ["height", ind] =>
+    match parseNodes ind with
+    | some l => showOpt toString (heightL l)
+    | none => "bad-op"
+  | ["root", ind] =>
+    match parseNodes ind with
+    | some l => showOpt showNode (rootL l)
+    | none => "bad-op"
+  | ["check", sub, slot, ind] =>
+    -- completeness and typing of a node list (the list-level checkers the theorems speak about)
+    match (do let sp ← parseSub sub; let s ← parseNat slot; let l ← parseNodes ind; pure (sp, s, l)) with
+    | some (sp, s, l) => showBool (complete l) ++ showBool (typed (mkSub sp) [s] l)
+    | none => "bad-op"
+  | ["setslice", ind, b, e, val] =>
+    match (do let l ← parseNodes ind; let b ← parseNat b; let e ← parseNat e; let v ← parseNodes val; pure (l, b, e, v)) with
+    | some (l, b, e, v) => showOpt showNodes (setSlice l b e v)
+    | none => "bad-op"
+  | ["setitem", ind, i, val] =>
+    match (do let l ← parseNodes ind; let i ← parseNat i; let v ← parseNode val; pure (l, i, v)) with
+    | some (l, i, v) => showOpt showNodes (setItem l i v)
+    | none => "bad-op"
+  | ["add", sub, nodes, τs] =>
+    -- `_add` of the nodes in order, then the pools of the listed types
+    match (do let sp ← parseSub sub; let l ← parseNodes nodes; let ts ← parseList parseNat τs; pure (sp, l, ts)) with
+    | some (sp, l, ts) =>
+      let ds := l.foldl (addPrim (mkSub sp)) ⟨[], []⟩
+      ";".intercalate (ts.map (fun τ => toString τ ++ "=" ++ ",".intercalate ((dictGet ds.prims τ).map (·.name))
+        ++ "/" ++ ",".intercalate ((dictGet ds.terms τ).map (·.name))))
+    | none => "bad-op"
+  | "slim" :: key :: maxv :: rest =>
+    match (do
+      let k ← parseKey key; let m ← parseNat maxv
+      let (opToks, tape) ← dropLast rest
+      let (args, op) ← parseOp opToks
+      let tp ← parseTape tape
+      pure (k, m, args, op, tp)) with
+    | some (k, m, args, op, tp) => showMany (staticLimit k m op args tp)
+    | none => "bad-op"
+  | toks =>
+    match (do
+      let (opToks, tape) ← dropLast toks
+      let (args, op) ← parseOp opToks
+      let tp ← parseTape tape
+      pure (args, op, tp)) with
+    | some (args, op, tp) => showMany (op args tp)
+    | none => "bad-op"
 
 end DriverC11
